@@ -566,12 +566,19 @@ def classify(text, timeout=3):
         nlines = text.count('\n') + 1
         if not (1 <= e.lineno <= nlines and 1 <= e.colno <= len(text) + 2):
             return ('badpos', 'line %s col %s' % (e.lineno, e.colno))
-        try:
-            str(e)
-        except Exception as ex:    # noqa
-            return ('badpos', 'str(error) raised %s' % type(ex).__name__)
+        # the error object is the answer of Read: it has to be printable both ways (a traceback uses str(), a logger / the prompt repr())
+        for how in (str, repr):
+            try:
+                how(e)
+            except Exception as ex:    # noqa
+                return ('badpos', '%s(error) raised %s' % (how.__name__, type(ex).__name__))
         return ('ring', 'syntax')
-    except RINGError:
+    except RINGError as e:
+        for how in (str, repr):
+            try:
+                how(e)
+            except Exception as ex:    # noqa
+                return ('escape', '%s(reader error) raised %s' % (how.__name__, type(ex).__name__))
         return ('ring', 'reader')
     except NotImplementedError:
         return ('notimpl', None)
